@@ -6,7 +6,7 @@ from harness.props import synth_common as sy
 
 TRUSTED = [
     "Coq 8.16.1 kernel; vm_compute for generated cases; no native_compute",
-    "model: coq/Model/Synth.v (deciders, create_node, metahandlers), coq/Model/Grammar.v; specification coq/Spec/WellTyped.v (WT, evaluated through its executable reflection wtb)",
+    "model: coq/Model/Synth.v (deciders, create_node, metahandlers), coq/Model/Grammar.v, coq/Model/Stack.v (the stack machine create_tree_using_stacks, for hierarchies without metahandler-annotated / string fields and with dyadic production weights); specification coq/Spec/WellTyped.v (WT, evaluated through its executable reflection wtb)",
     "correspondence harness: harness/props/c01.py, harness/drivers/synth.py (real classes and deciders; recorded, extreme and gene-backed sources); values canonicalised with exact type tests (bool is not int, a generator is foreign)",
 ]
 
